@@ -15,7 +15,7 @@
 //! database must accept a further transaction and survive a clean reopen.
 //! The event trace itself is handed to the extracted, proved acceptor of the log discipline.
 //!
-//! Case line (kind 12): 12 n ev* with ev: 1 len (append, backfilled number of stores) | 2 sync | 3 store | 4 finish | 5 flush | 6 n truncate
+//! Case line (kind 12): 12 n ev* with ev: 1 len cell* (append; the cells it stores to, backfilled) | 2 sync | 3 store | 4 finish | 7 x (table file x synced) | 6 n truncate
 //! Observation: 1 nrecs synced enacted truncated
 use crate::{interpose::{self, Sys}, prng::Rng, props::hist::{self, Case, Step}, util::Out};
 use parity_db::{Db, Operation};
@@ -45,7 +45,8 @@ struct Tracker {
 	synced_records: HashSet<u64>,
 	enacted: usize,
 	truncated: usize,
-	stores_of: Vec<usize>,         // number of stores per record (backfilled)
+	stores_of: Vec<Vec<u64>>,      // the cells each record stored to, in order (backfilled): file id << 40 | index
+	file_ids: HashMap<String, u64>, // table file name -> file id of its cells
 	cur_enact: Option<usize>,
 	dirty_files: HashSet<String>,
 	events: Vec<(u64, u64)>,       // (code, arg)
@@ -59,6 +60,47 @@ struct Tracker {
 }
 
 static TRACKER: Mutex<Option<Tracker>> = Mutex::new(None);
+/// the open handle (for the stage interleaved from the msync hook), whether a clean step is running,
+/// and the random decisions left for this history
+static DBPTR: std::sync::atomic::AtomicUsize = std::sync::atomic::AtomicUsize::new(0);
+static IN_CLEAN: std::sync::atomic::AtomicBool = std::sync::atomic::AtomicBool::new(false);
+static INTERLEAVE_BUDGET: std::sync::atomic::AtomicUsize = std::sync::atomic::AtomicUsize::new(0);
+static INTERLEAVED: std::sync::atomic::AtomicUsize = std::sync::atomic::AtomicUsize::new(0);
+
+/// While the cleanup stage is between two msync calls, the enact stage runs one record on another
+/// thread (in the library the commit worker and the cleanup worker are different threads).
+fn interleave_enact() {
+	use std::sync::atomic::Ordering;
+	if !IN_CLEAN.load(Ordering::SeqCst) {
+		return
+	}
+	let p = DBPTR.load(Ordering::SeqCst);
+	if p == 0 {
+		return
+	}
+	// every second opportunity, while the budget lasts
+	let left = INTERLEAVE_BUDGET.load(Ordering::SeqCst);
+	if left == 0 {
+		return
+	}
+	INTERLEAVE_BUDGET.store(left - 1, Ordering::SeqCst);
+	if left % 2 == 0 {
+		return
+	}
+	IN_CLEAN.store(false, Ordering::SeqCst);
+	let db: &Db = unsafe { &*(p as *const Db) };
+	// enact_logs blocks while too many logs wait for the cleanup that is running right now
+	if db.verif_num_dirty_logs() < 3 {
+		std::thread::scope(|sc| {
+			sc.spawn(|| {
+				if let Ok(true) = db.verif_enact_one() {
+					INTERLEAVED.fetch_add(1, Ordering::SeqCst);
+				}
+			});
+		});
+	}
+	IN_CLEAN.store(true, Ordering::SeqCst);
+}
 /// record ids applied by the replay of the image being opened (event hook, validation mode)
 static REPLAYED: Mutex<Vec<u64>> = Mutex::new(Vec::new());
 
@@ -242,7 +284,7 @@ fn on_event(kind: &'static str, a: u64, b: u64) {
 			t.logged += 1;
 			t.record_ids.push(a);
 			t.record_log.push(b);
-			t.stores_of.push(0);
+			t.stores_of.push(vec![]);
 			t.events.push((1, (t.record_ids.len() - 1) as u64));
 			let p = t.dir.join(format!("log{b}"));
 			let after = std::fs::metadata(&p).map(|m| m.len()).unwrap_or(0);
@@ -259,18 +301,15 @@ fn on_event(kind: &'static str, a: u64, b: u64) {
 		"store" => {
 			t.events.push((3, 0));
 			if let Some(i) = t.cur_enact {
-				t.stores_of[i] += 1;
+				t.stores_of[i].push((a << 40) | (b & 0xff_ffff_ffff));
 			}
+			t.file_ids.insert(table_file_name(a), a);
 			t.dirty_files.insert(table_file_name(a));
 			t.sample(1, 6, 1, 6, &format!("inside the enactment of a record, after a store to {} slot/chunk {b}", table_file_name(a)));
 		},
 		"enact_end" => {
 			t.enacted += 1;
 			t.events.push((4, 0));
-			// a record without stores leaves nothing to synchronise: "every store so far is durable" holds
-			if t.dirty_files.is_empty() {
-				t.events.push((5, 0));
-			}
 			t.cur_enact = None;
 			t.sample(1, 5, 1, 5, &format!("after record {a} was enacted"));
 		},
@@ -316,8 +355,10 @@ fn on_sys(e: Sys) {
 				d[off..end].copy_from_slice(&cur[off..end]);
 			}
 			t.dirty_files.remove(&n);
-			if t.dirty_files.is_empty() {
-				t.events.push((5, 0));
+			// the model event: every cell of this file is durable as it is now (index files are synced from
+			// the end of their header on; cells - chunks - all lie behind it)
+			if let Some(id) = t.file_ids.get(&n) {
+				t.events.push((7, *id));
 			}
 			t.sample(1, 8, 1, 4, &format!("after msync of {n}"));
 		},
@@ -520,10 +561,28 @@ pub fn main(args: &[String], kind: &str) -> i32 {
 	let mut total_images = 0u64;
 	parity_db::verif::set_event_hook(Some(on_event));
 	interpose::set_sink(Some(Box::new(on_sys)));
+	interpose::set_after_msync(Some(Box::new(interleave_enact)));
 	for hi in 0..count {
 		// a history of the usual kind, without clean reopen steps before the end so that the pipeline gets deep
 		let mut case = hist::gen_case(&mut rng, "c02");
 		case.steps.retain(|s| !matches!(s, Step::Reopen));
+		// so that a clean step often finds a synced, not yet enacted log beside the logs it cleans
+		// (the stage interleaving of C12): before half of the clean steps a repeated commit is logged and synced
+		{
+			let commits: Vec<Step> = case.steps.iter().filter(|s| matches!(s, Step::Commit(_))).cloned().collect();
+			let mut out = Vec::new();
+			for s in case.steps.drain(..) {
+				if matches!(s, Step::Clean) && !commits.is_empty() && rng.chance(1, 2) {
+					out.push(rng.pick(&commits).clone());
+					for _ in 0..6 {
+						out.push(Step::Process);
+					}
+					out.push(Step::Flush);
+				}
+				out.push(s);
+			}
+			case.steps = out;
+		}
 		hist::canonicalise(&mut case);
 		crate::util::watch_begin(&out, &hist::case_tokens(&case));
 		let dir = root.join("db");
@@ -546,6 +605,7 @@ pub fn main(args: &[String], kind: &str) -> i32 {
 			enacted: 0,
 			truncated: 0,
 			stores_of: vec![],
+			file_ids: HashMap::new(),
 			cur_enact: None,
 			dirty_files: HashSet::new(),
 			events: vec![],
@@ -558,8 +618,11 @@ pub fn main(args: &[String], kind: &str) -> i32 {
 			power_only: kind == "c12",
 		});
 		let mut verdict: Result<(), String> = Ok(());
+		let interleave_budget = if rng.chance(1, 2) { rng.range(1, 12) as usize } else { 0 };
 		let run = std::panic::catch_unwind(std::panic::AssertUnwindSafe(|| {
 			let db = Db::open_or_create(&opts).expect("create");
+			DBPTR.store(&db as *const Db as usize, std::sync::atomic::Ordering::SeqCst);
+			INTERLEAVE_BUDGET.store(if kind == "c13" { 0 } else { interleave_budget }, std::sync::atomic::Ordering::SeqCst);
 			with(|t| t.enabled = true);
 			for s in &case.steps {
 				match s {
@@ -598,13 +661,17 @@ pub fn main(args: &[String], kind: &str) -> i32 {
 						db.verif_enact_one().unwrap();
 					},
 					Step::Clean => {
-						db.clean_logs().unwrap();
+						IN_CLEAN.store(true, std::sync::atomic::Ordering::SeqCst);
+						let r = db.clean_logs();
+						IN_CLEAN.store(false, std::sync::atomic::Ordering::SeqCst);
+						r.unwrap();
 					},
 					_ => (),
 				}
 				with(|t| t.sample(1, 4, 1, 4, &format!("after step {:?}", std::mem::discriminant(s))));
 			}
 			with(|t| t.enabled = false);
+			DBPTR.store(0, std::sync::atomic::Ordering::SeqCst);
 			drop(db);
 		}));
 		if run.is_err() {
@@ -616,8 +683,11 @@ pub fn main(args: &[String], kind: &str) -> i32 {
 		for (code, arg) in &tr.events {
 			toks.push(*code);
 			match code {
-				1 => toks.push(tr.stores_of[*arg as usize] as u64),
-				6 => toks.push(*arg),
+				1 => {
+					toks.push(tr.stores_of[*arg as usize].len() as u64);
+					toks.extend(tr.stores_of[*arg as usize].iter());
+				},
+				6 | 7 => toks.push(*arg),
 				_ => (),
 			}
 		}
@@ -798,6 +868,8 @@ pub fn main(args: &[String], kind: &str) -> i32 {
 		let _ = hi;
 	}
 	interpose::set_sink(None);
+	interpose::set_after_msync(None);
+	dist.insert("records-enacted-inside-a-clean-step".into(), INTERLEAVED.load(std::sync::atomic::Ordering::SeqCst) as u64);
 	parity_db::verif::set_event_hook(None);
 	let _ = std::fs::remove_dir_all(root.join("db"));
 	let _ = std::fs::remove_dir_all(root.join("img"));
